@@ -58,48 +58,66 @@ def scanExp (mark : Nat) (s : CStr) : Int × Nat :=
       ((if neg then -v else v), 1 + nsign + ds.length)
   | [] => (0, 0)
 
-/-- mantissa `digits* [. digits*]` in `base` (10 or 16): (all digits, number of fraction
-digits, characters consumed, a '.' was consumed) — `none` if there is no digit at all -/
-def scanMantissa (base : Nat) (s : CStr) : Option (CStr × Nat × Nat) :=
-  let ip := s.takeWhile (isDigitIn base)
-  let r := s.dropWhile (isDigitIn base)
-  match r with
+/-- what follows the integer digits `ip` of a mantissa: an optional `.` and fraction digits -/
+def scanFrac (base : Nat) (ip : CStr) : CStr → Option (CStr × Nat × Nat)
   | 46 :: r2 =>
     let fp := r2.takeWhile (isDigitIn base)
     if ip = [] ∧ fp = [] then none
     else some (ip ++ fp, fp.length, ip.length + 1 + fp.length)
   | _ => if ip = [] then none else some (ip, 0, ip.length)
 
+/-- mantissa `digits* [. digits*]` in `base` (10 or 16): (all digits, number of fraction
+digits, characters consumed) — `none` if there is no digit at all -/
+def scanMantissa (base : Nat) (s : CStr) : Option (CStr × Nat × Nat) :=
+  scanFrac base (s.takeWhile (isDigitIn base)) (s.dropWhile (isDigitIn base))
+
 /-- exact value `D * b^(e)` as a fraction, `b^e` with a possibly negative `e` -/
 def scaleRat (d : Nat) (b : Nat) (e : Int) : Nat × Nat :=
   if e ≥ 0 then (d * b ^ e.toNat, 1) else (d, b ^ (-e).toNat)
 
-/-- a numeral after the sign: (num, den, consumed) -/
+/-- mantissa in `base`, optional exponent introduced by `mark` (`e` = 101 / `p` = 112) scaling by
+powers of `expBase`, each fraction digit worth `perDigit` such powers: (num, den, consumed) -/
+def scanBody (base mark expBase perDigit : Nat) (r : CStr) : Option (Nat × Nat × Nat) :=
+  match scanMantissa base r with
+  | some (ds, nfrac, n) =>
+    let ex := scanExp mark (r.drop n)
+    let q := scaleRat (digitsValue base ds) expBase (ex.1 - (perDigit : Int) * (nfrac : Int))
+    some (q.1, q.2, n + ex.2)
+  | none => none
+
+/-- hexadecimal numeral `0x…[p…]` -/
+def scanHex : CStr → Option (Nat × Nat × Nat)
+  | 48 :: x :: r =>
+    if lower x = 120 then
+      match scanBody 16 112 2 4 r with
+      | some (num, den, n) => some (num, den, 2 + n)
+      | none => none
+    else none
+  | _ => none
+
+/-- a numeral after the sign: (num, den, consumed); a `0x` that is not followed by a hexadecimal
+mantissa is the decimal numeral `0` -/
 def scanNumber (s : CStr) : Option (Nat × Nat × Nat) :=
-  let hex : Option (Nat × Nat × Nat) :=
-    match s with
-    | 48 :: x :: r =>
-      if lower x = 120 then
-        match scanMantissa 16 r with
-        | some (ds, nfrac, n) =>
-          let (e, ne) := scanExp 112 (r.drop n)
-          let (num, den) := scaleRat (digitsValue 16 ds) 2 (e - 4 * (nfrac : Int))
-          some (num, den, 2 + n + ne)
-        | none => none
-      else none
-    | _ => none
-  match hex with
+  match scanHex s with
   | some h => some h
-  | none =>
-    match scanMantissa 10 s with
-    | some (ds, nfrac, n) =>
-      let (e, ne) := scanExp 101 (s.drop n)
-      let (num, den) := scaleRat (digitsValue 10 ds) 10 (e - (nfrac : Int))
-      some (num, den, n + ne)
-    | none => none
+  | none => scanBody 10 101 10 1 s
 
 def isNChar (c : Nat) : Bool :=
   isDec c || (decide (97 ≤ c) && decide (c ≤ 122)) || (decide (65 ≤ c) && decide (c ≤ 90)) || c == 95
+
+/-- characters consumed behind `nan`: `(n-char-seq)` if the parenthesis is closed, else nothing -/
+def nanTail : CStr → Nat
+  | 40 :: r2 =>
+    if (r2.drop (r2.takeWhile isNChar).length).head? = some 41 then (r2.takeWhile isNChar).length + 2 else 0
+  | _ => 0
+
+/-- `inf` / `infinity` / `nan` / `nan(n-char-seq)` after the sign, any case:
+(is it an infinity, characters consumed) -/
+def scanSpecial (s2 : CStr) : Option (Bool × Nat) :=
+  if matchCI [105, 110, 102] s2 then
+    some (true, if matchCI [105, 110, 105, 116, 121] (s2.drop 3) then 8 else 3)
+  else if matchCI [110, 97, 110] s2 then some (false, 3 + nanTail (s2.drop 3))
+  else none
 
 /-- glibc `strtod` family scanning (format independent) -/
 def strtodScan (s : CStr) : FScan :=
@@ -110,18 +128,10 @@ def strtodScan (s : CStr) : FScan :=
   match scanNumber s2 with
   | some (num, den, n) => { val := .fin neg num den, consumed := pre + n }
   | none =>
-    if matchCI [105, 110, 102] s2 then
-      let n := if matchCI [105, 110, 105, 116, 121] (s2.drop 3) then 8 else 3
-      { val := .inf neg, consumed := pre + n }
-    else if matchCI [110, 97, 110] s2 then
-      let r := s2.drop 3
-      match r with
-      | 40 :: r2 =>
-        let cs := r2.takeWhile isNChar
-        if (r2.drop cs.length).head? = some 41 then { val := .nan, consumed := pre + 3 + cs.length + 2 }
-        else { val := .nan, consumed := pre + 3 }
-      | _ => { val := .nan, consumed := pre + 3 }
-    else { val := .fin false 0 1, consumed := 0 }
+    match scanSpecial s2 with
+    | some (true, n) => { val := .inf neg, consumed := pre + n }
+    | some (false, n) => { val := .nan, consumed := pre + n }
+    | none => { val := .fin false 0 1, consumed := 0 }
 
 /-! ## IEEE round-to-nearest-even -/
 
@@ -208,6 +218,15 @@ def strToFloatOrig (isF : Bool) (f : Fmt) (s : CStr) : Option FRes :=
 
 /-! ## Specification -/
 
+/-- the body is exactly `inf`, `infinity`, `nan` or `nan(n-char-seq)`, any case: is it an infinity -/
+def specialLit (body : CStr) : Option Bool :=
+  let l := body.map lower
+  if l = [105, 110, 102] ∨ l = [105, 110, 102, 105, 110, 105, 116, 121] then some true
+  else if l = [110, 97, 110] then some false
+  else if l.take 4 = [110, 97, 110, 40] ∧ l.getLast? = some 41 ∧
+      ((body.drop 4).take (body.length - 5)).all isNChar then some false
+  else none
+
 /-- the stripped string is exactly one numeral (or `inf`, `infinity`, `nan`, `nan(…)`, any
 case) with an optional sign; its value -/
 def floatNumeral (core : CStr) : Option FVal :=
@@ -215,12 +234,10 @@ def floatNumeral (core : CStr) : Option FVal :=
   match scanNumber body with
   | some (num, den, n) => if n = body.length then some (.fin neg num den) else none
   | none =>
-    let l := body.map lower
-    if l = [105, 110, 102] ∨ l = [105, 110, 102, 105, 110, 105, 116, 121] then some (.inf neg)
-    else if l = [110, 97, 110] then some .nan
-    else if l.take 4 = [110, 97, 110, 40] ∧ l.getLast? = some 41 ∧
-        ((body.drop 4).take (body.length - 5)).all isNChar then some .nan
-    else none
+    match specialLit body with
+    | some true => some (.inf neg)
+    | some false => some .nan
+    | none => none
 
 /-- Specification of the float parsers: one numeral, correctly rounded, not overflowing -/
 def refParseFloat (f : Fmt) (s : CStr) : Option FRes :=
